@@ -12,7 +12,7 @@ from .. import history
 from ..models import KEYS, State, sorted_key
 from ..observe import observe, lib_args
 
-TIERS = {"quick": 600, "thorough": 8000}
+TIERS = {"quick": 600, "thorough": 30000}
 WATCHDOG_S = {"quick": 900, "thorough": 7200}
 RULE = ("one case = one generated abstract content (2-6 nodes+isolated ones, 2-6 hyperedges, metadata, one numeric "
         "type per weight) of one container type (round robin H,D,T,M) built by 4-8 different histories (shuffled "
